@@ -46,6 +46,10 @@ proof fn lemma_flat_append(a: Seq<Seq<char>>, b: Seq<Seq<char>>)
 }
 
 pub open spec fn strip(s: Seq<Seq<char>>) -> Seq<Seq<char>> { strip_from(s, 0) }
+/// the precondition of whitespace::operations(from, to): both clean, same non-whitespace characters (used by C10 and C14)
+pub open spec fn ops_pre(f: Seq<Seq<char>>, t: Seq<Seq<char>>) -> bool {
+    is_clean(f) && is_clean(t) && strip_from(f, 0) == strip_from(t, 0)
+}
 
 proof fn lemma_strip_append(a: Seq<Seq<char>>, b: Seq<Seq<char>>, k: int)
     requires 0 <= k <= a.len(),
